@@ -771,6 +771,12 @@ def flush_lean(ctx, batch):
             ctx.fail("corr:valid-schema-fails-schemaChecksB", "the computable schema hypotheses of the soundness theorem "
                      "(Spec/SchemaChecks.lean) are false on a schema that build_schema + validate accept",
                      c.replay_data({"label": label}), kind="correspondence")
+        # schema hypothesis `FieldOwners` of accepted_cannot_go_wrong_merged (MergeSafe derived from the overlap rule)
+        ctx.stat("field-owners:%s" % a.get("field_owners"))
+        if a.get("field_owners") is False:
+            ctx.fail("corr:valid-schema-fails-fieldOwnersB", "a schema that build_schema + validate accept has a type other than an "
+                     "object / interface type carrying fields in its dump (hypothesis FieldOwners of Props/C05_overlap.lean)",
+                     c.replay_data({"label": label}), kind="correspondence")
         if (a.get("validdoc_r") if "validdoc_r" in a else a.get("validdoc")) is False:
             ctx.fail("corr:accepted-but-not-ValidDoc:%s" % (a.get("validdoc_why") or "?"),
                      "validate_ast accepted a document outside the declarative ValidDoc predicate the theorems assume",
